@@ -316,6 +316,71 @@ def fmt_lin(v: Tuple[int, int]) -> str:
     return f'{a}*S{b:+d}' if a and b else (f'{a}*S' if a else str(b))
 
 
+# editor keys Entity.export deliberately leaves out for the worldspawn entity (frozen table, one reason each)
+WORLD_OMITTED_EDITOR_KEYS = {
+    'groupid': 'the world itself cannot be grouped (its brushes carry the group ids)',
+    'visgroupid': 'the world itself cannot be put in a visgroup (its brushes carry the ids)',
+    'visgroupshown': 'the world cannot be hidden',
+    'visgroupautoshown': 'the world cannot be hidden',
+    'logicalpos': 'Hammer keeps no logical-view position for the world',
+}
+
+
+def v15_editor_keys(ctx: Any, vm: Any) -> None:
+    """Every key Entity.parse reads from the editor{} block is written by Entity.export, and written for the worldspawn entity too unless it
+    is one of the keys that mean nothing for the world (table above).  Entity.parse reads them all without looking at _worldspawn."""
+    ctx.rule('C06.V15', 'editor{} keys read by Entity.parse are written by Entity.export, for worldspawn too except the keys that cannot apply to the world', floor=6)
+    par, exp = vm.func('Entity.parse'), vm.func('Entity.export')
+    read_keys: Set[str] = set()
+    for n in ast.walk(par):
+        if isinstance(n, ast.Compare) and len(n.ops) == 1 and isinstance(n.ops[0], ast.Eq) and dotted(n.left) == 'editor_prop.name' and isinstance(n.comparators[0], ast.Constant):
+            read_keys.add(n.comparators[0].value)
+    if len(read_keys) < 6:
+        raise AnalysisError(f'Entity.parse: only {len(read_keys)} editor keys found')
+
+    def ev3(t: ast.AST) -> Optional[bool]:
+        # value of a test for the worldspawn entity (None = depends on something else)
+        if isinstance(t, ast.Name) and t.id == '_is_worldspawn':
+            return True
+        if isinstance(t, ast.UnaryOp) and isinstance(t.op, ast.Not):
+            v = ev3(t.operand)
+            return None if v is None else not v
+        if isinstance(t, ast.BoolOp):
+            vs = [ev3(v) for v in t.values]
+            if isinstance(t.op, ast.And):
+                return False if False in vs else (None if None in vs else True)
+            return True if True in vs else (None if None in vs else False)
+        return None
+    written: Dict[str, List[bool]] = {}     # key -> [never reached for the world?] per write site
+    for c in ast.walk(exp):
+        if not (isinstance(c, ast.Call) and isinstance(c.func, ast.Attribute) and c.func.attr == 'write' and c.args and isinstance(c.args[0], ast.JoinedStr)):
+            continue
+        lits = ''.join(str(v.value) for v in c.args[0].values if isinstance(v, ast.Constant))
+        m = re.match(r'\s*"(\w+)" "', lits)
+        if not m or m.group(1) not in read_keys:
+            continue
+        gated = False
+        anc = vm.parents.get(c)
+        while anc is not None and anc is not exp:
+            if isinstance(anc, ast.If) and '_is_worldspawn' in ast.unparse(anc.test):
+                in_body = any(c is x for b in anc.body for x in ast.walk(b))
+                v = ev3(anc.test)
+                if (v is False and in_body) or (v is True and not in_body):
+                    gated = True
+            anc = vm.parents.get(anc)
+        written.setdefault(m.group(1), []).append(gated)
+    for k in sorted(read_keys):
+        if k not in written:
+            ctx.check('C06.V15', False, vm, exp, f'Entity.parse reads the editor key "{k}" but Entity.export never writes it', func='Entity.export', text=f'editor key {k} written')
+            continue
+        world_gets_it = not all(written[k])
+        if k in WORLD_OMITTED_EDITOR_KEYS:
+            ctx.check('C06.V15', True, vm, exp, f'"{k}" may be left out for the world: {WORLD_OMITTED_EDITOR_KEYS[k]}', func='Entity.export', text=f'editor key {k} written')
+        else:
+            ctx.check('C06.V15', world_gets_it, vm, exp, f'Entity.export writes the editor key "{k}" only for ordinary entities, but Entity.parse reads it for the worldspawn block as well: the value set on vmf.spawn is lost '
+                      'on a round trip', func='Entity.export', text=f'editor key {k} written')
+
+
 def v9_to_v14(ctx: Any, vm: Any) -> None:
     # ---- V9: brace depth of every named block _export_displacement emits -------------------------------------------------
     ed = vm.func('Side._export_displacement')
@@ -490,6 +555,7 @@ def run(ctx: Any, prog: Program) -> None:
     ctx.rule('C06.V13', 'objects read from a hidden{} wrapper are built hidden, all others visible (the writer wraps exactly the hidden ones)', floor=3)
     ctx.rule('C06.V14', 'the active camera number is 1-based everywhere it is compared with the number of cameras', floor=2)
     v9_to_v14(ctx, vm)
+    v15_editor_keys(ctx, vm)
     ctx.rule('C06.V2', 'str-typed values written inside quotes are passed through escape_text', floor=12)
     ctx.rule('C06.V3', 'significant-digit float formatting only on the fields the property allows (rotation, delay, Vec4)', floor=3)
     ctx.rule('C06.V4', 'displacement row blocks: written tokens per row equal what the reader demands', floor=10)
@@ -931,6 +997,7 @@ def elt_token_alternatives(elt: ast.AST, tokens_of_type: Dict[str, int]) -> Opti
 
 
 MUTANTS = [
+    {'id': 'world_comments_not_exported', 'file': 'vmf.py', 'find': "        if self.comments:\n            buffer.write(f'{ind}\\t\\t\"comments\" \"{escape_text(self.comments)}\"\\n')\n        buffer.write(ind + '\\t}\\n')\n\n        buffer.write(ind + '}\\n')", 'replace': "        if self.comments and not _is_worldspawn:\n            buffer.write(f'{ind}\\t\\t\"comments\" \"{escape_text(self.comments)}\"\\n')\n        buffer.write(ind + '\\t}\\n')\n\n        buffer.write(ind + '}\\n')", 'expect': 'C06.V15'},
     {'id': 'multiblend_outside_dispinfo', 'file': 'vmf.py', 'find': "        buffer.write(f'{ind}\\t\\t}}\\n')\n\n        if disp_multiblend and any(vert.multi_blend for vert in self._disp_verts):", 'replace': "        buffer.write(f'{ind}\\t\\t}}\\n{ind}\\t}}\\n')\n\n        if disp_multiblend and any(vert.multi_blend for vert in self._disp_verts):",
      'extra': [{'file': 'vmf.py', 'find': "        # Close the dispinfo block - the multiblend data lives inside it.\n        buffer.write(f'{ind}\\t}}\\n')\n", 'replace': ""}], 'expect': 'C06.V9'},
     {'id': 'entities_two_passes', 'file': 'vmf.py', 'find': "        for item in tree:\n            if item.name == 'entity':\n                map_obj.add_ent(\n                    Entity.parse(map_obj, item, False)  # hidden=False\n                )\n            elif item.name == 'hidden':\n                for ent in item:\n                    map_obj.add_ent(\n                        Entity.parse(map_obj, ent, True)  # hidden=True\n                    )\n",
